@@ -18,26 +18,27 @@ import (
 )
 
 type FuncResult struct {
-	Key         string        `json:"function"`
-	Pos         string        `json:"pos"`
-	Props       []string      `json:"properties"`
-	Obligations []*Obligation `json:"obligations"`
-	Unsupported []string      `json:"outside_subset,omitempty"`
-	Stale       []string      `json:"stale_contract_clauses,omitempty"`
-	Assumptions []string      `json:"assumptions,omitempty"`
-	Inlined     []string      `json:"inlined_callees,omitempty"`
-	Contracts   []string      `json:"callee_contracts_used,omitempty"`
-	Lemmas      []string      `json:"lemmas_used,omitempty"`
-	Seconds     float64       `json:"seconds"`
-	Error       string        `json:"error,omitempty"`
-	AssumedOnly bool          `json:"assumed_only,omitempty"`
+	Key         string         `json:"function"`
+	Pos         string         `json:"pos"`
+	Props       []string       `json:"properties"`
+	Obligations []*Obligation  `json:"obligations"`
+	Unsupported []string       `json:"outside_subset,omitempty"`
+	Stale       []string       `json:"stale_contract_clauses,omitempty"`
+	Assumptions []string       `json:"assumptions,omitempty"`
+	Inlined     []string       `json:"inlined_callees,omitempty"`
+	Contracts   []string       `json:"callee_contracts_used,omitempty"`
+	Lemmas      []string       `json:"lemmas_used,omitempty"`
+	NotClaimed  map[string]int `json:"obligation_kinds_not_claimed,omitempty"`
+	Seconds     float64        `json:"seconds"`
+	Error       string         `json:"error,omitempty"`
+	AssumedOnly bool           `json:"assumed_only,omitempty"`
 }
 
 func (g *Gen) newFuncVC(fn *ssa.Function, key string, c *Contract) *FuncVC {
 	return &FuncVC{G: g, Fn: fn, Key: key, C: c, declared: map[string]bool{}, counters: map[string]int{}, assumptions: map[string]bool{},
 		strConsts: map[string]string{}, predCache: map[string]string{}, inlined: map[string]bool{}, callees: map[string]bool{},
 		hsort: map[string]string{}, closures: map[ssa.Value]bool{}, knownLen1: map[string]bool{}, inlineStack: map[*ssa.Function]int{},
-		usedContracts: map[string]bool{}, usedLemmas: map[string]bool{}, defs: map[string]string{}, loadCache: map[string]cacheEnt{}, predIdx: map[string]int{}, callOrd: map[string]int{}, firedGhosts: map[*GhostClause]bool{}, groundDefs: map[string]bool{}}
+		usedContracts: map[string]bool{}, usedLemmas: map[string]bool{}, defs: map[string]string{}, loadCache: map[string]cacheEnt{}, predIdx: map[string]int{}, callOrd: map[string]int{}, firedGhosts: map[*GhostClause]bool{}, groundDefs: map[string]bool{}, skippedKinds: map[string]int{}}
 }
 
 // generate builds all obligations of one function under contract.
@@ -518,6 +519,9 @@ func (g *Gen) verifyFunction(key string, c *Contract, smtDir string, quickMs int
 		r.Lemmas = append(r.Lemmas, k)
 	}
 	sort.Strings(r.Lemmas)
+	if len(f.skippedKinds) > 0 {
+		r.NotClaimed = f.skippedKinds
+	}
 	var wg sync.WaitGroup
 	for _, o := range f.obls {
 		wg.Add(1)
